@@ -216,6 +216,64 @@ def acc_worker(arg):
         r["bad"] = {"kind": "aliasing", "case": tlaval.to_json(st["case"]), "diff": diff}
     return r
 
+_XPROC = r'''
+import sys, pickle, json
+sys.path.insert(0, sys.argv[1]); sys.dont_write_bytecode = True
+import pydsdl
+types = {str(t): t for t in pydsdl.read_namespace(sys.argv[2])}
+got = pickle.load(open(sys.argv[3], "rb"))
+bad = []
+for y in got:
+    f = types[str(y)]
+    if not (y == f and f == y):
+        bad.append(["unpickled object differs from the freshly read one", str(y)])
+    elif hash(y) != hash(f):
+        bad.append(["unpickled object equals the freshly read one but has another hash", str(y)])
+    if not isinstance(y, pydsdl.ServiceType) and (y.bit_length_set != f.bit_length_set or hash(y.bit_length_set) != hash(f.bit_length_set)):
+        bad.append(["bit length set of the unpickled object", str(y)])
+    for a, b in zip(y.attributes, f.attributes):
+        if not (a == b) or hash(a) != hash(b):
+            bad.append(["attribute of the unpickled object", str(a)])
+print(json.dumps(bad))
+'''
+
+@core.safe
+def cross_process_worker(seed):
+    """Pickles travel between processes: objects that were used (hashed, compared, queried) here are unpickled in another
+    interpreter with another hash seed and must equal - and hash like - the objects freshly read there."""
+    import os, subprocess, sys, json, tempfile
+    import pydsdl
+    fs = {"ns/P.1.0.dsdl": "uint8 a\nuint16[<=3] b\nfloat32 K = 1.5\n@sealed\n", "ns/U.1.0.dsdl": "@union\nns.P.1.0 p\nbool q\n@extent 128\n",
+          "ns/S.1.0.dsdl": "ns.U.1.0[<=2] us\n@sealed\n---\nns.P.1.0 p\n@extent 256\n", "ns/7000.D.1.0.dsdl": "@deprecated\nvoid3\nuint5 x\n@sealed\n"}
+    diff = []
+    with dsdlio.Tree(fs, "c18x") as tr:
+        status, res, _ = dsdlio.read_ns(tr.path("ns"))
+        objs = list(res)
+        # use them first: hash, compare, query
+        _ = {o: 1 for o in objs}
+        _ = [o == p for o in objs for p in objs]
+        _ = [sorted(o.bit_length_set) for o in objs if not isinstance(o, pydsdl.ServiceType)]
+        fd, path = tempfile.mkstemp(prefix="verif-pickle-")
+        os.close(fd)
+        try:
+            for proto in (2, pickle.HIGHEST_PROTOCOL):
+                with open(path, "wb") as f:
+                    pickle.dump(objs, f, protocol=proto)
+                for hs in ("1", "12345"):
+                    p = subprocess.run([sys.executable, "-c", _XPROC, str(core.REPO), str(tr.path("ns")), path], capture_output=True, text=True,
+                                       env=dict(os.environ, PYTHONHASHSEED=hs, PYTHONDONTWRITEBYTECODE="1"), timeout=120)
+                    if p.returncode != 0:
+                        diff.append(("unpickling in another process failed", proto, hs, p.stderr.strip().splitlines()[-1][:200] if p.stderr.strip() else ""))
+                    else:
+                        for b in json.loads(p.stdout.strip().splitlines()[-1]):
+                            diff.append((b[0], b[1], "protocol %d, hash seed %s" % (proto, hs)))
+        finally:
+            os.unlink(path)
+    r = {"nt": True, "key": "cross-process-pickle"}
+    if diff:
+        r["bad"] = {"kind": "values-pickle", "case": "objects pickled here, unpickled in a process with another hash seed", "diff": diff[:6]}
+    return r
+
 @core.safe
 def expr_worker(seed):
     """Expression values and bit length sets built independently from equal / different descriptions."""
@@ -293,6 +351,7 @@ def run(ctx):
     c02.run_cfg(ctx, "Values", "Values_acc_quick.cfg" if ctx.tier == "quick" else "Values_acc.cfg", acc_worker, "acc",
                 mk=lambda blocks: [(b, ctx.seed) for b in blocks])
     c02.consume(ctx, core.pmap(expr_worker, [ctx.seed], procs=1), "expr")
+    c02.consume(ctx, core.pmap(cross_process_worker, [ctx.seed], procs=1), "xproc")
     ctx.sample({"a": "struct X {uint8[<=35]}", "b": "struct X {uint8[<=36]; void8}", "verdict": "no or either by approximation"})
 
 def replay(ctx, rec):
